@@ -16,12 +16,14 @@ import ScyllaVerif.Model.TabletsRefresh
     `T`                           dump of every table of the `TabletsInfo`, sorted, then `u<unresolved>s<stale>`
     `Q<ks>.<table>:<token>`       `tablets_for_table(..).replicas_for_token(..)`
     `D<ks>.<table>:<token>@<dc>`  `tablets_for_table(..).dc_replicas_for_token(..)`
-* `cs <op>;<op>;…` / `csa <op>;…` — one history on a real `ClusterState` (tablet keyspace `k0` with tables `t0`, `t1`);
+* `cs <op>;<op>;…` / `csa <op>;…` / `csm <op>;…` — one history on a real `ClusterState` (keyspaces `k0`, `k1`, tables `t0`, `t1`
+  each; table index in the ops: 0, 1 = `k0.t0`, `k0.t1`, 2, 3 = `k1.t0`, `k1.t1`);
   `cs`: the host filter rejects every peer (pool-less nodes), `csa`: it accepts every peer and the nodes are enabled
-  (the accepted-node arms of `calculate_new_topology`, `inherit_with_ip_changed`):
+  (the accepted-node arms of `calculate_new_topology`, `inherit_with_ip_changed`), `csm`: per-peer verdicts (a trailing `*`
+  on a peer = accepted; a node is enabled iff it was accepted when built / kept - the mixed arms):
     `P<peer>,<peer>…[!<schema>]`  first: `ClusterState::new`; later: a metadata refresh (`new_updated`); a peer is
                                   `<id>[@<dc>[/<rack>]]`, its address is its position in the list; `<schema>` = `x` (no keyspace),
-                                  `-` (`k0` not tablet-based), `e` (the fetch of `k0` failed), `<tables>/<views>` (default `t0+t1/`)
+                                  `-` (not tablet-based), `e` (its fetch failed), `<tables>/<views>`; `!<k0>&<k1>` (default `t0+t1/` and `x`)
                                   → `P<ids whose Node object was kept>|<tables of the tablet map with their sizes>`
     `N<peer>,<peer>…`             `new_with_updated_topology` (peers only, keyspaces of the current state) → `N…` likewise
     `L<t>:<first>:<last>:<reps>`  `ClusterState::update_tablets` with one tablet for table `t<t>`
@@ -319,13 +321,16 @@ def runPayload (arg : String) : String :=
 
 /-! ### `cs`: refresh histories on the cluster state -/
 
-def parsePeer (idx : Nat) (s : String) : Option Peer :=
+def parsePeer (idx : Nat) (s0 : String) : Option Peer :=
+  -- a trailing `*`: the host filter accepts this peer (`csm` histories)
+  let acc := s0.endsWith "*"
+  let s := if acc then (s0.dropEnd 1).toString else s0
   match s.splitOn "@" with
-  | [a] => a.toNat?.map fun id => ⟨id, none, none, idx, false⟩
+  | [a] => a.toNat?.map fun id => ⟨id, none, none, idx, acc⟩
   | [a, loc] =>
     match a.toNat?, loc.splitOn "/" with
-    | some id, [dc] => some ⟨id, some dc, none, idx, false⟩
-    | some id, [dc, rack] => some ⟨id, some dc, some rack, idx, false⟩
+    | some id, [dc] => some ⟨id, some dc, none, idx, acc⟩
+    | some id, [dc, rack] => some ⟨id, some dc, some rack, idx, acc⟩
     | _, _ => none
   | _ => none
 
@@ -344,30 +349,45 @@ def insertNat (x : Nat) : List Nat → List Nat
   | [] => [x]
   | y :: ys => if x ≤ y then x :: y :: ys else y :: insertNat x ys
 
-/-- the schema part of a `P` op, as the fetch result by keyspace name: absent = `k0` with tables `t0`, `t1`; `x` = no
-keyspace; `-` = `k0` exists but is not tablet-based; `e` = the fetch of `k0` FAILED; `<tables>/<views>` = tablet-based `k0`
-with these tables and materialized views -/
-def parseCsSchema (s : Option String) : Option (List (String × Option KsMeta)) :=
-  match s with
-  | none => some [("k0", some ⟨"k0", true, ["t0", "t1"], []⟩)]
-  | some "x" => some []
-  | some "-" => some [("k0", some ⟨"k0", false, [], []⟩)]
-  | some "e" => some [("k0", none)]
-  | some cfg =>
-    match cfg.splitOn "/" with
+/-- one keyspace of the schema part of a `P` op, as its fetch result: `x` = absent, `-` = exists but is not
+tablet-based (vnodes), `e` = its fetch FAILED, `<tables>/<views>` = tablet-based with these tables and views -/
+def parseCsKeyspace (name cfg : String) : Option (List (String × Option KsMeta)) :=
+  if cfg == "x" then some []
+  else if cfg == "-" then some [(name, some ⟨name, false, [], []⟩)]
+  else if cfg == "e" then some [(name, none)]
+  else match cfg.splitOn "/" with
     | [tables, views] =>
       let ts := parseNames tables
       let vs := parseNames views
-      if (ts ++ vs).all (fun n => n == "t0" || n == "t1") then some [("k0", some ⟨"k0", true, ts, vs⟩)] else none
+      if (ts ++ vs).all (fun n => n == "t0" || n == "t1") then some [(name, some ⟨name, true, ts, vs⟩)] else none
     | _ => none
 
-structure CsSt where
-  cs : CState
-  /-- the keyspaces of the current state (`new_with_updated_topology` reuses them) -/
-  kss : List KsMeta
+/-- `!<k0 cfg>[&<k1 cfg>]`; without `!`: `k0` = `t0+t1/`, `k1` absent -/
+def parseCsSchema (s : Option String) : Option (List (String × Option KsMeta)) :=
+  match s with
+  | none => parseCsKeyspace "k0" "t0+t1/"
+  | some cfg =>
+    match cfg.splitOn "&" with
+    | [a] => parseCsKeyspace "k0" a
+    | [a, b] =>
+      match parseCsKeyspace "k0" a, parseCsKeyspace "k1" b with
+      | some x, some y => some (x ++ y)
+      | _, _ => none
+    | _ => none
 
+inductive CsMode where
+  /-- the host filter rejects every peer; the hook resets the nodes to "not enabled" before a refresh -/
+  | reject
+  /-- the host filter accepts every peer; the nodes are enabled -/
+  | accept
+  /-- per-peer verdicts (`*`); a node is enabled iff the refresh that built or kept it accepted it -/
+  | mixed
+  deriving DecidableEq
+
+/-- table index of the ops: 0, 1 = `k0.t0`, `k0.t1`; 2, 3 = `k1.t0`, `k1.t1` -/
 def csSpec (t : String) : Option (String × String) :=
-  if t == "0" || t == "1" then some ("k0", "t" ++ t) else none
+  if t == "0" then some ("k0", "t0") else if t == "1" then some ("k0", "t1")
+  else if t == "2" then some ("k1", "t0") else if t == "3" then some ("k1", "t1") else none
 
 def csScan (inf : Info) (spec : String × String) : Nat → Int → List String
   | 0, _ => []
@@ -386,23 +406,35 @@ def showTableSizes (inf : Info) : String :=
   let sorted := inf.tables.foldl (fun acc e => insertSorted e acc) []
   if sorted.isEmpty then "-" else "+".intercalate (sorted.map fun e => s!"{e.1.1}.{e.1.2}:{e.2.tablets.length}")
 
-/-- one refresh; `fetched = none`: `new_with_updated_topology`.  `accepting`: the host filter accepts every peer and
-the nodes read as enabled (the `cs` kind: everything rejected, nodes read as not enabled). -/
-def csRefresh (accepting : Bool) (cs : CState) (peers : List Peer) (fetched : Option (List (String × Option KsMeta)))
-    (oldKss : List KsMeta) : CState × List KsMeta × String :=
-  let peers := peers.map fun p => { p with accepted := accepting }
-  let old : Known := cs.known.map fun e => (e.1, { e.2 with enabled := accepting })
-  let cs0 := { cs with known := old }
-  let (cs', kss) := match fetched with
-    | none => (refreshTopology cs0 peers oldKss, oldKss)
-    | some f => (refreshFetched cs0 peers f oldKss, resolveKeyspaces f oldKss)
-  let kept := cs'.known.foldl (fun acc e =>
+/-- one refresh through the model's own `kstep`; `fetched = none`: `new_with_updated_topology`.  Output: node objects
+kept, table sizes, and for every keyspace whose fetch failed `~e` (an older version is reused) / `~E` (dropped). -/
+def csRefresh (mode : CsMode) (st : KState) (peers : List Peer) (fetched : Option (List (String × Option KsMeta))) :
+    KState × String :=
+  let peers := match mode with
+    | .reject => peers.map fun p => { p with accepted := false }
+    | .accept => peers.map fun p => { p with accepted := true }
+    | .mixed => peers
+  let old : Known := match mode with
+    | .reject => st.cs.known.map fun e => (e.1, { e.2 with enabled := false })
+    | .accept => st.cs.known.map fun e => (e.1, { e.2 with enabled := true })
+    | .mixed => st.cs.known
+  let st0 : KState := { st with cs := { st.cs with known := old } }
+  let st' := match fetched with
+    | none => kstep st0 (.topology peers)
+    | some f => kstep st0 (.refresh peers f)
+  let kept := st'.cs.known.foldl (fun acc e =>
     match alGet e.1 old with
     | some o => if o.node == e.2.node then insertNat e.1 acc else acc
     | none => acc) []
-  (cs', kss, natList kept ++ "|" ++ showTableSizes cs'.info)
+  let tags := match fetched with
+    | none => ""
+    | some f => String.join (f.map fun e =>
+        match e.2 with
+        | some _ => ""
+        | none => if st.kss.any (fun k => k.name == e.1) then "~e" else "~E")
+  (st', natList kept ++ "|" ++ showTableSizes st'.cs.info ++ tags)
 
-def csOp (accepting : Bool) (st : Option CsSt) (op : String) : Option (CsSt × String) :=
+def csOp (mode : CsMode) (st : Option KState) (op : String) : Option (KState × String) :=
   match splitOp op with
   | none => none
   | some (c, arg) =>
@@ -413,9 +445,8 @@ def csOp (accepting : Bool) (st : Option CsSt) (op : String) : Option (CsSt × S
         | _ => (arg, none)
       match parsePeers ps, schema.bind parseCsSchema with
       | some peers, some fetched =>
-        let (cs', kss, out) := csRefresh accepting ((st.map (·.cs)).getD CState.init) peers (some fetched)
-          ((st.map (·.kss)).getD [])
-        some (⟨cs', kss⟩, "P" ++ out)
+        let (st', out) := csRefresh mode (st.getD KState.init) peers (some fetched)
+        some (st', "P" ++ out)
       | _, _ => none
     else match st with
     | none => none
@@ -425,16 +456,16 @@ def csOp (accepting : Bool) (st : Option CsSt) (op : String) : Option (CsSt × S
         -- `new_with_updated_topology`: new peers, the keyspaces of the current state
         match parsePeers arg with
         | some peers =>
-          let (cs', _, out) := csRefresh accepting cs peers none st.kss
-          some ({ st with cs := cs' }, "N" ++ out)
+          let (st', out) := csRefresh mode st peers none
+          some (st', "N" ++ out)
         | none => none
       else if c == 'L' || c == 'B' then
         -- `L`: a batch of one; `B`: one `update_tablets` call with several tablets, `|`-separated
         let items := if c == 'L' then [arg] else arg.splitOn "|"
         match items.mapM csItem with
         | some batch =>
-          let (cs', ok) := learnBatch cs batch
-          some ({ st with cs := cs' }, if ok then String.singleton c else "panic")
+          let ok := (learnBatch cs batch).2
+          some (kstep st (.batch batch), if ok then String.singleton c else "panic")
         | none => none
       else if c == 's' then
         match arg.splitOn ":" with
@@ -463,11 +494,11 @@ def csOp (accepting : Bool) (st : Option CsSt) (op : String) : Option (CsSt × S
         | _ => none
       else none
 
-def runCs (accepting : Bool) (ops : List String) : String :=
-  let rec go (st : Option CsSt) (acc : List String) : List String → Option (List String)
+def runCs (mode : CsMode) (ops : List String) : String :=
+  let rec go (st : Option KState) (acc : List String) : List String → Option (List String)
     | [] => some acc.reverse
     | op :: rest =>
-      match csOp accepting st op with
+      match csOp mode st op with
       | none => none
       | some (st', out) => go (some st') (out :: acc) rest
   match go none [] ops with
@@ -477,8 +508,9 @@ def runCs (accepting : Bool) (ops : List String) : String :=
 def run (case _impl : String) : String :=
   match words case with
   | ["tab", ops] => runTab ((ops.splitOn ";").filter (· ≠ ""))
-  | ["cs", ops] => runCs false ((ops.splitOn ";").filter (· ≠ ""))
-  | ["csa", ops] => runCs true ((ops.splitOn ";").filter (· ≠ ""))
+  | ["cs", ops] => runCs .reject ((ops.splitOn ";").filter (· ≠ ""))
+  | ["csa", ops] => runCs .accept ((ops.splitOn ";").filter (· ≠ ""))
+  | ["csm", ops] => runCs .mixed ((ops.splitOn ";").filter (· ≠ ""))
   | ["payload", arg] => runPayload arg
   | ["exh", alpha, depth, pre] =>
     match depth.toNat?, parseNatList pre with
